@@ -307,7 +307,8 @@ pub fn put_step<S: Src, const N: usize>(s: &mut S) {
     cv!(s, admitted && pre.count() >= 1, "put_step: entry admitted into a non-empty store");
     cv!(s, !admitted, "put_step: entry rejected");
     match outcome {
-        InsertOutcome::NotInserted => {
+        // any outcome that is not `Inserted` means "not stored" (a new variant must not break the harness build)
+        o if !matches!(o, InsertOutcome::Inserted { .. }) => {
             ck!(s, !admitted, "put rejects an entry only if an entry at its key or at a prefix of it is not older");
             ck!(s, st.same_set(&pre) && st.count() == pre.count(), "a rejected entry changes nothing");
         }
@@ -334,6 +335,8 @@ pub fn put_step<S: Src, const N: usize>(s: &mut S) {
             ck!(s, removed == want_removed, "put reports the number of entries it removed");
             ck!(s, st.count() == pre.count() - want_removed + 1, "put adds nothing but the new entry");
         }
+        #[allow(unreachable_patterns)]
+        _ => {}
     }
     if pre.pruned() {
         ck!(s, st.pruned() && st.keys_unique(), "put preserves the pruned-set invariant");
